@@ -130,8 +130,10 @@ def run(prop_id, modname, jobs_fn, meta, argv=None):
             h = hashlib.sha1(json.dumps(c["replay"], sort_keys=True, default=str).encode()).hexdigest()[:10]
             path = os.path.join(VERIF, "replays", "%s_%s.json" % (prop_id, h))
             json.dump(c["replay"], open(path, "w"), indent=1, default=str)
+            env = dict(os.environ)
+            env.pop("NUMBA_DISABLE_JIT", None)      # replays run the compiled kernels, as users do
             pr = subprocess.run([sys.executable, os.path.join(VERIF, "run_check.py"), prop_id,
-                                 "--replay", path], capture_output=True, text=True, timeout=900)
+                                 "--replay", path], capture_output=True, text=True, timeout=900, env=env)
             if pr.returncode == EXIT_VIOLATION and ("VIOLATION property=%s" % prop_id) in pr.stdout:
                 ok = (c, path)
                 break
